@@ -226,6 +226,8 @@ int _factor_lehman_method(integer_class &rop, const integer_class &n)
 
         while (k <= u_bound) {
             a = mp_sqrt(4 * k * n);
+            if (a * a < 4 * k * n)
+                a = a + 1; // smallest a with a*a >= 4*k*n
             mp_root(b, n, 6);
             mp_root(l, k, 2);
             b = b / (4 * l);
